@@ -354,6 +354,12 @@ def run(ctx):
             if is_exc(u):
                 ctx.count("base_rejected")
                 continue
+            if i % 2:
+                # read-before-modify: every public view of the receiver has been computed (and memoised) before it is modified
+                from ..ops import touch_all
+
+                touch_all(u)
+                ctx.count("receivers_fully_read_first")
             bv = vec(u)
             bshape = (hk, uk, "p" + port[:2], bool(path), sch)
             cl = calls(ctx.rng, tg, ctx.params["random"]) + current_calls(u)
